@@ -17,8 +17,9 @@ NOT_ACCUMULATED = {
     ("IntermediateRangeBucketEntry", ".key"): "bucket identity: entries are paired by their map key, the range key is the same on both sides",
     ("IntermediateRangeBucketEntry", ".from"): "bucket identity: bounds of the range, fixed by the request",
     ("IntermediateRangeBucketEntry", ".to"): "bucket identity: bounds of the range, fixed by the request",
-    ("IntermediateBucketResult", "::Range.0.column_type"): "derived from the request / schema, the same in every partition",
-    ("IntermediateBucketResult", "::Histogram.is_date_agg"): "derived from the request, the same in every partition",
+    # NOT tabled (both entries were in the first version of this table, with the reason "derived from the request, the same in
+    # every partition" — a triage error): `::Histogram.is_date_agg` and `::Range.0.column_type` are derived from the column type
+    # the SEGMENT reports, and a segment in which a JSON path has no value reports an empty U64 column (hunts/hunt5 F1).
     ("IntermediateCompositeBucketResult", ".target_size"): "request parameter",
     ("IntermediateCompositeBucketResult", ".orders"): "request parameter",
     ("CardinalityCollector", ".salt"): "insert-time salt derived from the column type; only the sketch carries data",
